@@ -6,8 +6,8 @@ cd "$(dirname "$0")/.."
 D="$1"; shift
 M=/var/tmp/supv-verif-seed-$$
 rm -rf $M; mkdir -p $M; cp -r /repo/supvisors $M/supvisors; [ -f /repo/setup.py ] && cp /repo/setup.py /repo/setup.cfg $M/ 2>/dev/null
-demo=$(ls $D/test_demo.py $D/demo.py 2>/dev/null | head -1)
-rundemo() { case "$demo" in *test_demo.py) (cd $M && PYTHONPATH=$M timeout 600 /venv/bin/python -m pytest -q -p no:cacheprovider "$demo" 2>&1 | tail -1) ;; *) (cd $M && PYTHONPATH=$M SEED_WORKTREE=$M timeout 600 /venv/bin/python "$demo" >/dev/null 2>&1; echo "exit=$?") ;; esac; }
+demo=$(ls $D/test_demo*.py $D/demo*.py 2>/dev/null | head -1)
+rundemo() { case "$demo" in *test_demo*.py) (cd $M && PYTHONPATH=$M timeout 600 /venv/bin/python -m pytest -q -p no:cacheprovider "$demo" 2>&1 | tail -1) ;; *) (cd $M && PYTHONPATH=$M SEED_WORKTREE=$M timeout 600 /venv/bin/python "$demo" >/dev/null 2>&1; echo "exit=$?") ;; esac; }
 echo "demo clean  : $(rundemo)"
 (cd $M && patch -p1 -s < "$D/patch.diff") || { echo "PATCH DOES NOT APPLY"; rm -rf $M; exit 2; }
 echo "demo patched: $(rundemo)"
